@@ -54,6 +54,8 @@ def refused(ins, out):
             return ret == "0"
         if cid == 0x1080:
             return ret not in ("0", None)
+        if cid in (0x1040, 0x1041, 0x1042, 0x1043):             # zero on success, non-zero otherwise (vlib/cmdfail.py, Sf.CmdFail.convOf)
+            return ret not in ("0", None)
         return err not in ("0", None)
     return False
 
